@@ -1,8 +1,9 @@
 from common import *
 from rpcommon import *
 ID = 'C07'
-TRANSLATORS = []
-COQ_TARGETS = ['Properties_C07.vo']
+TRANSLATORS = [('consts2coq.py', ['coq/Gen/Consts.v'])]
+GEN_FILES = ['coq/Gen/Consts.v']
+COQ_TARGETS = ['Properties_C07.vo', 'Proof/ConstsRegp.vo']
 HARNESS_MODS = ['rp']
 RULE = ('cases: rp.corrupt 1 mem16 style blocksize l:bits h:frame l:verdicts - the valid serial frame with the listed bits flipped (bit i = bit i%8, least '
         'significant first, of octet i/8) is SLIP-framed, received and processed; obs as rp.serve (return code, error id, parsed frame, backend calls, reply, '
